@@ -199,7 +199,9 @@ def r5_wrapper(ctx):
                     real_def = [s for s in f.node.body if isinstance(s, ast.Assign) and isinstance(s.targets[0], ast.Name) and s.targets[0].id == x.right.id]
                     if exp_def and real_def:
                         ev_ = exp_def[0].value
-                        okexp = isinstance(ev_, ast.BinOp) and isinstance(ev_.op, ast.Div) and isinstance(ev_.right, ast.Attribute) and ev_.right.attr == limit and (src(ev_.left) in ('len(data)', 'bytes_written'))
+                        wrapped = [s_ for s_ in f.node.body if isinstance(s_, ast.Assign) and isinstance(s_.value, ast.Call) and isinstance(s_.value.func, ast.Attribute) and s_.value.func.attr == m and isinstance(s_.targets[0], ast.Name)]
+                        wname = wrapped[0].targets[0].id if wrapped else None
+                        okexp = isinstance(ev_, ast.BinOp) and isinstance(ev_.op, ast.Div) and isinstance(ev_.right, ast.Attribute) and ev_.right.attr == limit and (src(ev_.left) in (f'len({wname})', f'{wname}'))
                         rv = real_def[0].value
                         okreal = isinstance(rv, ast.BinOp) and isinstance(rv.op, ast.Sub) and 'perf_counter' in src(rv.left) and isinstance(rv.right, ast.Name)
                         shape = okexp and okreal
